@@ -131,4 +131,42 @@ class C04(Prop):
         return v
 
 
+    def extra(self, ctx):
+        """Enumerated part: every dense-time temporal operator x every interval with end points in
+        {0, 1/4, 1/2, 1, 2, 3} (and unbounded), over a bare variable and a predicate (thorough: also nested pairs),
+        on aligned, unaligned and late-starting signals."""
+        rng = ctx.rng
+        x, y = lang.V('x'), lang.V('y')
+        px, py = lang.N('geq', x, lang.C(1.0)), lang.N('leq', y, lang.C(0.5))
+        pts = [Fr(0), Fr(1, 4), Fr(1, 2), Fr(1), Fr(2), Fr(3)]
+        ivls = [None] + [(a, b) for i, a in enumerate(pts) for b in pts[i:]]
+        forms = []
+        for o in ('once', 'historically', 'eventually', 'always'):
+            for iv in ivls:
+                forms += [lang.N(o, x, ivl=iv), lang.N(o, px, ivl=iv)]
+        for o in ('since', 'until', 'unless'):
+            for iv in ivls:
+                if o == 'unless' and iv is None:
+                    continue
+                forms.append(lang.N(o, px, py, ivl=iv))
+        if ctx.tier == 'thorough':
+            red = [None, (Fr(0), Fr(0)), (Fr(1, 2), Fr(1, 2)), (Fr(0), Fr(1)), (Fr(1, 4), Fr(2))]
+            inner = [lang.N(o, px, ivl=iv) for o in ('once', 'historically', 'eventually', 'always') for iv in red]
+            inner += [lang.N(o, px, py, ivl=iv) for o in ('since', 'until') for iv in red]
+            for iv in red:
+                forms += [lang.N(o, g, ivl=iv) for o in ('once', 'historically', 'eventually', 'always') for g in inner]
+                forms += [lang.N(o, g, py, ivl=iv) for o in ('since', 'until') for g in inner]
+        forms = [f for i, f in enumerate(forms) if i % ctx.nshards == ctx.shard]
+        done = 0
+        for f in forms:
+            if ctx.out_of_time():
+                ctx.notes.append('dense operator x interval enumeration stopped by the wall-clock budget after %d' % done)
+                break
+            names = lang.variables(f)
+            for k in range(3):
+                self.check(ctx, {'formula': f, 'signals': sig_text(lang.gen_signals(rng, names)), 'kind': 'ct'})
+            done += 1
+        ctx.count('enumerated-operator-interval-formulas', done)
+
+
 PROP = C04()
